@@ -194,7 +194,14 @@ namespace
   {
     std::stringstream ss;
     Dwarf_Die die = d.get_die ();
+    // which file the DIE lives in (main vs. supplementary dwz file): the size of
+    // the ELF image is a process-independent discriminator
+    size_t fsz = 0;
+    if (Dwarf *dw = dwarf_cu_getdwarf (die.cu))
+      if (Elf *elf = dwarf_getelf (dw))
+	elf_rawfile (elf, &fsz);
     ss << "\"o\":" << dwarf_dieoffset (&die)
+       << ",\"fsz\":" << fsz
        << ",\"tag\":" << dwarf_tag (&die)
        << ",\"raw\":" << (d.is_raw () ? "true" : "false")
        << ",\"imp\":[";
